@@ -436,3 +436,23 @@ package dawn
 //@   modifies dkeys, dvals
 //@   loop 0: invariant dict != nil && !old(allocated(dict))
 //@   loop 0: invariant others-untouched: forall d: ref :: old(allocated(d)) ==> (dkeys[d] == old(dkeys)[d] && dvals[d] == old(dvals)[d])
+
+// ---------------------------------------------------------------- C03: records are replaced atomically
+// saveTargetInfo writes a record only as: create a temporary file in the build-state temp directory,
+// encode, close, rename over the record path. The rename is the only effect on the record path, it is
+// attempted only after encode and close succeeded, and the function never opens the record path for
+// writing directly.
+//@ func (*dawn.Project).saveTargetInfo variant effects
+//@   requires proj != nil && label != nil
+//@   noeffects directwrite
+//@   deterministic
+//@   callsite CreateTemp: assert in-temp-dir: $0 == proj.temp
+//@   callsite Rename: assert after-complete-write: enc_ok && close_ok
+//@   callsite Rename: assert onto-record-path: $0 == tempName && $1 == path
+//@   ensures  one-rename: n_rename <= old(n_rename) + 1 && n_createtemp <= old(n_createtemp) + 1
+//@   ensures  success-means-renamed: result == nil ==> n_rename == old(n_rename) + 1
+//@   modifies heap, enc_ok, close_ok, n_rename, n_createtemp
+
+// The up-to-date check of a source looks at contents only.
+//@ func (*dawn.sourceFile).upToDate variant content-only
+//@   noeffects mtime
